@@ -161,11 +161,23 @@ static int a5sim_is_tracked(int fd) {
     return 0;
 }
 
+static int a5sim_has_prefix(const char *path, const char *root, size_t n) {
+    return n > 0 && strncmp(path, root, n) == 0 && (path[n] == '/' || path[n] == 0);
+}
+
 static int a5sim_under_root(const char *path) {
     const char *root = getenv("A5SIM_FS_ROOT");
     if (!path || !root || !*root) return 0;
-    size_t n = strlen(root);
-    return strncmp(path, root, n) == 0 && (path[n] == '/' || path[n] == 0);
+    if (a5sim_has_prefix(path, root, strlen(root))) return 1;
+    /* shared locations that the simulator has made private to the process (bind mounts) */
+    const char *also = getenv("A5SIM_FS_ALSO");
+    while (also && *also) {
+        const char *e = strchr(also, ':');
+        size_t n = e ? (size_t)(e - also) : strlen(also);
+        if (a5sim_has_prefix(path, also, n)) return 1;
+        also = e ? e + 1 : 0;
+    }
+    return 0;
 }
 
 /* returns 1 if the open can create or modify a file under the fault root (=> track the fd) */
